@@ -140,7 +140,12 @@ func TestWriteWitnesses(t *testing.T) {
 		name := strings.NewReplacer("/", "_", ":", "_").Replace(strings.TrimPrefix(f.Key, sub+"/defect/"))
 		_ = os.WriteFile(filepath.Join(dir, name+".json"), b, 0o644)
 	}
-	seen := map[string]bool{}
+	type best struct {
+		score int
+		f     *vk.Failure
+		c     Case
+	}
+	found := map[string]*best{}
 	plans := []*plan{
 		buildPlan(sameParentSpace(4), allOps, true),
 		buildPlan(vectorSpace(), func(o *opDef) bool { return o.Recv == 'V' }, true),
@@ -150,10 +155,63 @@ func TestWriteWitnesses(t *testing.T) {
 	for _, pl := range plans {
 		for i := 0; i < pl.total; i++ {
 			c := pl.gen(i)
-			if f := check(c); f != nil && !seen[f.Key] {
-				seen[f.Key] = true
-				write(subName, f, c)
+			f := check(c)
+			if f == nil {
+				continue
+			}
+			score := 0
+			for _, fam := range []string{famOverlapCorrupt, famResultWrong, famIdentityWrong, famDisjointReject, famMutatedBefore} {
+				if strings.Contains(f.Msg, "/"+fam+"]") {
+					score += 2
+				}
+			}
+			if r, cc := c.Recv.dims(); r*cc >= 2 {
+				score++
+			}
+			if r, cc := c.Recv.dims(); r*cc >= 4 {
+				score++
+			}
+			if b := found[f.Key]; b == nil || score > b.score {
+				found[f.Key] = &best{score, f, c}
 			}
 		}
+	}
+	for _, b := range found {
+		write(subName, b.f, b.c)
+	}
+	for i, c := range cdenseCases(4) {
+		c.Seed = uint64(i)*0x9e3779b97f4a7c15 + 7
+		if f := checkCDense(c); f != nil && c.Recv.R*c.Recv.C >= 4 {
+			f.Key = "cdense/" + f.Key
+			b, _ := json.MarshalIndent(cf{"C05", "cdense", "default", f, c}, "", " ")
+			_ = os.WriteFile(filepath.Join(dir, "cdense-copy-no-overlap-handling.json"), b, 0o644)
+			break
+		}
+	}
+	// hand-picked witnesses of the two defects known before the check existed
+	freshV := func(n int) Arg { return Arg{Buf: 2, W: Win{K: "V", VM: "new", R: n, C: 1, PS: 1, PR: n}} }
+	named := map[string]Case{
+		"vec-two-columns-of-nx2-matrix-rejected": {Op: "AddVec", L: 8, Seed: 1,
+			Recv: Win{K: "V", VM: "col", PS: 2, PR: 4, I: 0, J: 0, R: 4, C: 1},
+			Args: []Arg{{W: Win{K: "V", VM: "col", PS: 2, PR: 4, I: 0, J: 1, R: 4, C: 1}}, freshV(4)}},
+		"vec-inc3-slices-offset-by-3-accepted": {Op: "AddVec", L: 12, Seed: 1,
+			Recv: Win{K: "V", VM: "col", PS: 3, PR: 4, I: 0, J: 0, R: 3, C: 1},
+			Args: []Arg{{W: Win{K: "V", VM: "col", PS: 3, PR: 4, I: 1, J: 0, R: 3, C: 1}}, freshV(3)}},
+		"mul-dense-times-symdense-receiver-overlaps-sym": {Op: "Mul", L: 16, Seed: 1,
+			Recv: Win{K: "D", PS: 4, PR: 4, I: 0, J: 1, R: 2, C: 2},
+			Args: []Arg{{Buf: 1, W: Win{K: "D", PS: 3, PR: 2, I: 0, J: 1, R: 2, C: 2}}, {W: Win{K: "S", PS: 4, PR: 4, I: 0, J: 0, R: 2, C: 2}}}},
+		"mul-tridense-times-dense-receiver-overlaps-tri": {Op: "Mul", L: 16, Seed: 1,
+			Recv: Win{K: "D", PS: 4, PR: 4, I: 1, J: 1, R: 2, C: 2},
+			Args: []Arg{{W: Win{K: "U", PS: 4, PR: 4, I: 1, J: 1, R: 2, C: 2}}, {Buf: 2, W: Win{K: "D", PS: 3, PR: 2, I: 0, J: 1, R: 2, C: 2}}}},
+	}
+	for name, c := range named {
+		f := check(c)
+		if f == nil {
+			t.Errorf("named witness %s does not fail", name)
+			continue
+		}
+		f.Key = subName + "/" + f.Key
+		b, _ := json.MarshalIndent(cf{"C05", subName, "default", f, c}, "", " ")
+		_ = os.WriteFile(filepath.Join(dir, name+".json"), b, 0o644)
 	}
 }
